@@ -198,10 +198,10 @@ package types
 //@   modifies nothing
 //@   opt assume-frame
 //@   requires tx != nil && tx.data.GasPrice != nil && tx.data.Amount != nil && params.MinGasPrice != nil
-//@   ensures err == nil ==> timeStamp <= old(tx.data.Expiration) && old(tx.data.Expiration) - timeStamp <= 1800
-//@   ensures err == nil ==> old(tx.data.ChainID) == chainID && old(val(tx.data.Amount)) >= 0 && old(len(tx.data.RecipientName)) <= 100 && old(len(tx.data.Message)) <= 1024
-//@   ensures err == nil ==> old(boxOK(tx))
-//@   ensures err == nil ==> old(subsInWindow(tx, timeStamp))
+//@   ensures result0 == nil ==> timeStamp <= old(tx.data.Expiration) && old(tx.data.Expiration) - timeStamp <= 1800
+//@   ensures result0 == nil ==> old(tx.data.ChainID) == chainID && old(val(tx.data.Amount)) >= 0 && old(len(tx.data.RecipientName)) <= 100 && old(len(tx.data.Message)) <= 1024
+//@   ensures result0 == nil ==> old(boxOK(tx))
+//@   ensures result0 == nil ==> old(subsInWindow(tx, timeStamp))
 
 // JSON decoding of a box payload is a function of the payload bytes (uninterpreted): whether it fails and whether every element of
 // the sub-transaction list is present (a JSON null is decoded to a nil pointer).  Non-null ones have their required fields.
